@@ -11,8 +11,8 @@ import (
 	"pgregory.net/rapid"
 
 	"verifharness/ctlsim"
-	"verifharness/simhap"
 	"verifharness/hapcfg"
+	"verifharness/simhap"
 	"verifharness/world"
 )
 
